@@ -20,4 +20,15 @@ PROPS = {
         assumptions=["datagrams of one sequence number are segments of one message and are not duplicated by the network (QUIC datagram service)",
                      "sender-side SendDatagram succeeds (a failing send aborts the message; transport error path)"],
     ),
+    'C17': dict(
+        lean_modules=['Iscp.Props.C17'],
+        gen=[],
+        harnesses=[dict(name='neg', pkg='./corr/neg', topic='neg', n_quick=300, n_thorough=3000, thorough_seeds=4)],
+        trusted_base=COMMON_TB + [
+            "modelled, not verified: encoding/json (struct tags, omitempty/,string, exact-then-folded key matching, sorted map keys, U+FFFD coercion, literal rules of ,string fields) - mirrored in Iscp/Model/Neg.lean and pinned by correspondence; net/url.Values as a plain multimap; unicode/utf8.Valid (model has its own validator, compared on every generated string)",
+        ],
+        rule="cases = (a) grid encoding{'',json,proto,xml} x compression{'',per-message,context-takeover,gzip} x level{nil,-1,0..9,10} x window{nil,-1,0,1,8,15,32,33} x reconnect x group fields (every combination in thorough, a third sampled in quick), each through marshal/unmarshal on all three carriers, Validate and CompressConfig with two different bases; (b) every DialConfig on enable x level 0..9 x takeover x window{0,1,8,15,32}; (c) arbitrary key/value maps from pools of tag names, case variants, unknown keys, numeric oddities, invalid UTF-8; (d) malformed URL values; (e) binary inputs: truncations, duplicated/empty keys, invalid UTF-8, byte flips, random bytes. distinct = distinct op argument; non-trivial = every case runs at least one codec call",
+        explanation="Lean theorems over the executable model of the three negotiation codecs, Validate and CompressConfig (all parameter sets, all byte strings); tie = differential run of the real codecs against the model on the grid and on arbitrary maps/bytes, plus the property's own oracle on the implementation",
+        assumptions=["the receiving struct is fresh (zero) as in every call site of the library", "Go int is 64 bit"],
+    ),
 }
